@@ -8,6 +8,7 @@ PROP_MODULES = {
     "C09": ["contracts.c09_split", "contracts.c18_dastdp"],
     "C10": ["contracts.c10_updater"],
     "C13": ["contracts.c13_resize"],
+    "C14": ["contracts.c14_config"],
     "C18": ["contracts.c18_dastdp"],
     "C20": ["contracts.c20_numeric"],
 }
